@@ -134,7 +134,7 @@ def r_ledger2(root):
         ob("C16", "C16.b", M, "_start_model_construction", "marker tests are existence tests (marker value starts as None)", True)
     # ---------------- L5
     gd = CFG(drv)
-    handover = lambda n: n.kind == "stmt" and ((isinstance(n.ast, ast.Assign) and any(isinstance(x, ast.Attribute) and x.attr == "_tx_parser" for x in n.ast.targets)) or any(callee_name(c) == "_restore_user_attr_methods" for c in calls(n.ast)))
+    handover = lambda n: n.kind == "stmt" and ((isinstance(n.ast, ast.Assign) and any(isinstance(x, ast.Attribute) and x.attr == "_tx_parser" for x in n.ast.targets)) or any(callee_name(c) == "_restore_user_attr_methods" for c in closure_calls([n.ast], defs, depth=3)))
     inst += 1
     p = gd.paths_avoiding(gd.entry, gd.exit, handover)
     ob("C14", "C14.e", M, "parse_tree_to_objgraph", "every normal path hands the parser over to the model or restores the user classes", p is None)
